@@ -23,9 +23,11 @@ REQUIRED = ['core/connection_manager.py:ConnectionManager.open_connection', 'cor
 
 
 def plan(tier, seed):
+    # mode gdb: the connection-id interface as its real user drives it - the GDB plugin, ids taken from wl_connection addresses
+    # (address reuse, owner structs handed out again, several threads); sequences and judge are C15's, a connection mix-up is C04's too
     if tier == 'quick':
-        return [{'streams': 24, 'api': 150, 'len': [20, 250]} for _ in range(16)]
-    return [{'streams': 160, 'api': 1200, 'len': [20, 600]} for _ in range(64)]
+        return [{'streams': 24, 'api': 150, 'len': [20, 250]} for _ in range(14)] + [{'mode': 'gdb', 'n': 40, 'gdb_shim': True, 'len': [20, 150]} for _ in range(2)]
+    return [{'streams': 160, 'api': 1200, 'len': [20, 600]} for _ in range(56)] + [{'mode': 'gdb', 'n': 300, 'gdb_shim': True, 'len': [20, 300]} for _ in range(8)]
 
 
 def check_listing(ctx, st, s, probs):
@@ -76,7 +78,7 @@ def run_streams(ctx, spec, cands):
         r = rng.random()
         k = rng.randint(2, 6) if r < 0.9 else rng.randint(27, 34)
         n_each = tuple(spec['len']) if k <= 6 else (3, 12)
-        st = streams.build(rng, cands, k=k, n_each=n_each, tagged=True)
+        st = streams.build(rng, cands, k=k, n_each=n_each, tagged=True, opts={'lookalike_tags': True})
         s, probs = objcheck.run_stream(ctx, st, want=WANT)
         check_listing(ctx, st, s, probs)
         if i % 4 == 0 and k <= 6:
@@ -212,7 +214,7 @@ def run_late(ctx, spec, cands):
     rng = ctx.rng
     for n in range(max(2, spec['streams'] // 2)):
         k = rng.randint(2, 5)
-        st = streams.build(rng, cands, k=k, n_each=(15, 80), tagged=True, opts={'hot': rng.choice([0.3, 0.6])})
+        st = streams.build(rng, cands, k=k, n_each=(15, 80), tagged=True, opts={'hot': rng.choice([0.3, 0.6]), 'lookalike_tags': True})
         entries = list(st['entries'])
         # drop a prefix of some connections, and make some connection start with a delete_id / a message on an unknown object
         for ci in rng.sample(range(k), rng.randint(1, k)):
@@ -226,7 +228,7 @@ def run_late(ctx, spec, cands):
                     tag = entries[first]['tag']
                     at = '#' if st['dialect']['new'] else '@'
                     t = entries[first]['rec']['t_us']
-                    line = printer.render_time(t, st['dialect']) + '<%d> wl_display%s1.delete_id(%d)' % (tag, at, rng.choice([3, 7, 4242]))
+                    line = printer.render_time(t, st['dialect']) + '<%s> wl_display%s1.delete_id(%d)' % (tag, at, rng.choice([3, 7, 4242]))
                     entries.insert(first, {'tag': tag, 'ci': ci, 'line': line, 'rec': None})
         if not entries:
             continue
@@ -264,6 +266,16 @@ def run_late(ctx, spec, cands):
 
 
 def run(ctx, spec):
+    if spec.get('mode') == 'gdb':
+        from . import c15
+        env.setup(spec)
+        cands = wlxml.shipped(env.REPO)
+        for i in range(spec['n']):
+            c15.run_one(ctx, ctx.rng, cands, spec, 'A')
+            ctx.count('gdb_mode_sequences')
+            if ctx.out_of_time():
+                break
+        return
     env.setup()
     cands = wlxml.shipped(env.REPO)
     if 'api_ops' in spec:
@@ -285,6 +297,9 @@ def finalize(m):
 
 
 def replay(ctx, case):
+    if 'full_events' in case:
+        from . import c15
+        return c15.replay(ctx, case)
     env.setup()
     if 'api_ops' in case:
         replay_api(ctx, case['api_ops'])
